@@ -541,8 +541,18 @@ class Engine:
         if m: return F64(2 if (m.group(1) or m.group(2) == 'NEG_INFINITY') else (0 if m.group(2) == 'NAN' else 1), 0)
         if t in ('NaNf64', 'NaN'): return F64(0, 0)
         if 'promoted[' in t:
-            parts = t.split('::')
-            for k in range(len(parts)):          # the use site prints the full module path, the definition a shorter one
+            tt = t
+            while '::<' in tt:           # drop every generic-argument segment, including `::<impl Trait>` ones
+                i0 = tt.index('::<'); d = 0; j = i0 + 2
+                while True:
+                    if tt[j] == '<': d += 1
+                    elif tt[j] == '>' and tt[j-1] != '-':
+                        d -= 1
+                        if d == 0: break
+                    j += 1
+                tt = tt[:i0] + tt[j+1:]
+            parts = tt.split('::')
+            for k in range(len(parts)):          # the use site prints the full module path (and generic arguments), the definition a shorter one
                 pf = s.by_name.get('::'.join(parts[k:]))
                 if pf is not None and not pf.params: return s.run_fn(pf, [])
             raise Missing('promoted constant ' + t)
